@@ -108,6 +108,8 @@ def install_reactor(env):
                                                        'raises NotFound / NotPrivileged / NotAuthored / TypeError / a '
                                                        'message')
     def handle_options(I, self, job, text, prefix, privileged=False, authored=False):
+        # summary ghost: how many comments have been handed to the option parser so far
+        I.ghost['opt_seen'] = SInt(smt.Add(I.term_of(I.ghost['opt_seen']), smt.IntC(1)))
         outcome(I, excs, 'handle_options')
 
     @env.model('ReactorObj', 'handle_commands', trusted='Reactor.handle_commands: runs the command of one comment (its '
@@ -118,8 +120,18 @@ def install_reactor(env):
         outcome(I, excs[:2], 'handle_commands')
     env.exc_str = lambda I, e: SStr(I.fresh_term('str(err)', smt.STR, False))
     env.site_hooks[(HC, 'handle_commands')] = site_commands_after_last_robot_message
-    env.loop(HC, 0, None)
+    env.loop(HC, 0, inv_every_comment_parsed_for_options, havoc=[havoc_opt_seen], top_level=True)
     env.loop(HC, 1, inv_no_robot_comment_seen, top_level=True)
+
+
+def havoc_opt_seen(I, fr):
+    I.ghost['opt_seen'] = I.fresh('opt_seen@loop', 'int', is_input=False)
+
+
+def inv_every_comment_parsed_for_options(_i, G):
+    # options are looked for in ALL the comments of the pull request: none is skipped (the option parser itself
+    # decides, after stripping, whether a comment is addressed to the robot)
+    return G.opt_seen == _i
 
 
 def inv_no_robot_comment_seen(_i, _seq, job):
@@ -205,6 +217,7 @@ def ens_fc_repeat_guard(pull_request, username, startswith, max_history, out):
 # ---------------------------------------------------------------- _send_comment
 def trace_setup(I, args):
     I.ghost['trace'] = ()
+    I.ghost['opt_seen'] = SInt(smt.IntC(0))
 
 
 def posted(G):
@@ -341,6 +354,8 @@ def extra(rep, tier, seed, budget):
             ok = v is None or v == -1 or v >= 1 or cls is X.PartialMerge
             facts.append(('%s.dont_repeat_if_in_history in {-1, None, n>=1}' % name, ok,
                           {'class': name, 'value': v}))
+    from specs import shared_facts as _sf
+    facts.extend(_sf.jobs_do_not_share_settings())
     # F-d: Repository.reset forgets everything a previous job learnt about the remote (no other input)
     w2 = native_repository_reset()
     facts.append(('Repository.reset: new working directory and empty remote-branch caches', w2['ok'], w2))
